@@ -9,6 +9,7 @@ pub mod div;
 pub mod failures;
 pub mod forms;
 pub mod history;
+pub mod matrix;
 pub mod modpow;
 pub mod mul;
 #[cfg(feature = "rand")]
@@ -34,6 +35,7 @@ pub fn run(name: &str, r: &mut Rec) -> bool {
         "failures" => failures::run(r),
         "forms" => forms::run(r),
         "history" => history::run(r),
+        "matrix" => matrix::run(r),
         "mul" => mul::run(r),
         #[cfg(feature = "rand")]
         "rand" => rand_drv::run(r),
